@@ -96,8 +96,8 @@ Definition dump_table (now : Z) (t : table) : bytes :=
 (** ---- parsing ---- *)
 Fixpoint split_on (sep : N) (l : bytes) (cur : bytes) : list bytes :=
   match l with
-  | [] => [rev cur]
-  | b :: t => if b =? sep then rev cur :: split_on sep t [] else split_on sep t (b :: cur)
+  | [] => [rev_append cur []]
+  | b :: t => if b =? sep then rev_append cur [] :: split_on sep t [] else split_on sep t (b :: cur)
   end.
 Definition split (sep : N) (l : bytes) : list bytes := split_on sep l [].
 
@@ -181,7 +181,7 @@ Definition seg_bytes (rest : bytes) : bytes :=
 
 Fixpoint run_segs (o : opts) (t : table) (segs : list bytes) (acc : list bytes) : bool * list bytes :=
   match segs with
-  | [] => (true, rev acc)
+  | [] => (true, rev_append acc [])
   | s :: rest =>
       match s with
       | [] => run_segs o t rest acc
@@ -191,7 +191,7 @@ Fixpoint run_segs (o : opts) (t : table) (segs : list bytes) (acc : list bytes) 
             let now := parse_z ts in
             match read_lines o now t (seg_bytes body) with
             | Ok t' => run_segs o t' rest (dump_table now t' :: acc)
-            | Panic _ => (false, rev acc)
+            | Panic _ => (false, rev_append acc [])
             end
         | _ => run_segs o t rest acc
         end
@@ -227,7 +227,7 @@ Definition ounwrap (o : option N) : N := match o with Some v => v | None => 0 en
 Fixpoint run_m_go (o : opts) (path_m : bool) (r : option row) (ms : list bytes) (acc : list bytes)
   : bool * list bytes :=
   match ms with
-  | [] => (true, rev acc)
+  | [] => (true, rev_append acc [])
   | [] :: rest => run_m_go o path_m r rest acc
   | hm :: rest =>
       let m := map hexv hm in
@@ -252,7 +252,7 @@ Fixpoint run_m_go (o : opts) (path_m : bool) (r : option row) (ms : list bytes) 
               end
           end in
       match step with
-      | Panic _ => (false, rev acc)
+      | Panic _ => (false, rev_append acc [])
       | Ok None => run_m_go o path_m r rest acc
       | Ok (Some r') => run_m_go o path_m (Some r') rest (dump_row 0 r' :: acc)
       end
